@@ -119,7 +119,7 @@ fn crash_case(run: &Run, text: &str, classes: Vec<String>) -> CaseOut {
 	out
 }
 
-fn unicode_text(src: &mut Src) -> String {
+pub fn unicode_text(src: &mut Src) -> String {
 	let n = src.range(0, 24);
 	let mut s = String::new();
 	for _ in 0..n {
